@@ -153,6 +153,7 @@ func runC15(r *Run) {
 	}
 	scope[p.MustFn("app.doEthTransitions")] = true
 	checkSelectorDisciplineAs(r, "C15.selector", sels, scope)
+	checkRefundParser(r)
 	r.Floor("C15.", 40)
 }
 
